@@ -59,7 +59,7 @@ def dump_mir(features=''):
                 except OSError: pass
         others.sort(reverse=True)
         for i, (mt, fp) in enumerate(others):
-            if time.time() - mt > 600 or i >= 8:
+            if time.time() - mt > 600 or (i >= 24 and time.time() - mt > 120):
                 try: os.remove(fp)
                 except OSError: pass
         return out, h, time.time() - t0
